@@ -34,7 +34,7 @@ BOUNDS = {
 
 def describe(tier):
     return {
-        "rule": ep.RULE_PREFIX + "Oracle for EVERY decoded node without decoder-supplied sub-structure (provenance from the wrappers) in every "
+        "rule": ep.RULE_PREFIX + ep.RULE_STRETCH + "Oracle for EVERY decoded node without decoder-supplied sub-structure (provenance from the wrappers) in every "
         "tree: its child list == children of scan_node(Node(same type, same value), remaining depth) on a fresh scanner with the same, "
         "uninstrumented registry, where remaining depth = k - (level of the search that produced the node) - 1. Because the second scan "
         "sees only (type, value, depth), equality for every embedding also establishes that surroundings and position have no influence. "
